@@ -5,6 +5,7 @@
    threads is covered), and every write of this call is Good, so it is itself admissible interference for the others.
    The eviction tables H, C of a call are created by the call and never shared (translated: fresh_counts_per_call). *)
 From Connectome Require Import Values Attrs VM Edges EdgesGen Store MiscGen Evaluator L2 HashSound SpecEq EqFacts C01Inst C04Main Total RaiseDir C01Raise Examples.
+From Connectome Require ColStore ColumnsGen Columns ColumnsFacts EqFacts.
 Local Open Scope list_scope.
 
 Theorem C11_any_schedule :
@@ -77,3 +78,41 @@ Example C11_example :
   | _ => False end.
 Proof. vm_compute. auto. Qed.
 Print Assumptions C11_example.
+
+(* ---------- column caches under concurrency ----------
+   A request through a column of CacheColumns while other threads use the layer's two stores: [env n] is whatever they
+   do before the n-th store access of this request (RAM lookup, disk lookup, disk write, every RAM write) - other
+   requests through any column of the layer at any stage, clears, writes of CacheToDisk layers over the same folders:
+   anything that keeps the stores right.  The request still returns the value of the uncached field or the exception of
+   a user function, and leaves the stores right - so the same holds for the other threads, whose requests are of the same
+   kind.  Granularity: one access of MemoryCache (under its lock) or of the disk store (one tarn operation) is atomic;
+   that the real accesses are is what the thread harness and C12 check.  Over the REGENERATED CachedColumn.evaluate;
+   with nobody else around this is the sequential body (ColumnsFacts.column_evaluate_i_id).  Assumptions as in
+   C04_column_caches_are_transparent. *)
+Theorem C11_column_request_under_interference :
+  forall (sorted : list val -> list val) (get_hash : nat -> val -> option nhash) (get_value : nat -> val -> option val)
+         (h : nat -> val -> nhash) (v : nat -> val -> val),
+  (forall l, Permutation.Permutation (sorted l) l) ->
+  (forall c k x, get_hash c k = Some x -> x = h c k) ->
+  (forall c k x, get_value c k = Some x -> x = v c k) ->
+  (forall c k c' k', hpyeq (h c k) (h c' k') = true -> v c k = v c' k') ->
+  (forall c k c' ks, h c k <> ColumnsFacts.compound (map (h c') ks)) ->
+  forall env : nat -> ColStore.colstore -> ColStore.colstore,
+  (forall n st, ColumnsFacts.Inv h v st -> ColumnsFacts.Inv h v (env n st)) ->
+  forall col size key keys st r st' ev,
+  ColumnsFacts.Inv h v st -> ColumnsFacts.exact_key pyeq key -> In key keys -> size <> Some 0 ->
+  Columns.column_request_i hpyeq heqb pyeq sorted get_hash get_value env col size key keys st = (r, st', ev) ->
+  (r = ColStore.COk (v col key) \/ exists f, r = ColStore.CErr (EUser f)) /\ ColumnsFacts.Inv h v st'.
+Proof.
+  intros sorted get_hash get_value h v H1 H2 H3 H4 H5 env Henv.
+  exact (ColumnsFacts.column_request_concurrent hpyeq heqb pyeq sorted get_hash get_value h v EqFacts.hpyeq_refl EqFacts.heqb_eq EqFacts.pyeq_refl
+           H1 H2 H3 H4 H5 env Henv).
+Qed.
+Print Assumptions C11_column_request_under_interference.
+
+Theorem C11_column_sequential_is_the_idle_case :
+  forall sorted get_hash get_value col size output key keys st,
+  ColumnsGen.column_evaluate_i hpyeq heqb pyeq sorted get_hash get_value (fun _ s => s) col size output key keys st
+  = ColumnsGen.column_evaluate hpyeq heqb pyeq sorted get_hash get_value col size output key keys st.
+Proof. intros. apply ColumnsFacts.column_evaluate_i_id. Qed.
+Print Assumptions C11_column_sequential_is_the_idle_case.
